@@ -82,7 +82,13 @@ func (e *Enc) instr(in ssa.Instruction, st *State) {
 		v := e.val(x.X)
 		if v.Loc == nil && v.T.Sort == sInt {
 			if _, isPtr := x.X.Type().Underlying().(*types.Pointer); isPtr {
-				e.vals[x] = v
+				// an interface holding a nil pointer is not the nil interface: it is the value -1 ("typed nil"),
+				// which compares unequal to nil and to every reference
+				if v.T.S == "0" {
+					e.vals[x] = Val{T: tInt(-1)}
+				} else {
+					e.setVal(x, tIte(tEq(v.T, tInt(0)), tInt(-1), v.T))
+				}
 				return
 			}
 		}
@@ -608,6 +614,31 @@ func (e *Enc) ret(x *ssa.Return, st *State) {
 	c := e.blockCtx(x.Block(), st, extra)
 	e.terminal = true
 	defer func() { e.terminal = false }()
+	// `returns` clauses of the loops this return statement sits in
+	for _, li := range e.loops {
+		if li.lc == nil || !li.blocks[x.Block()] {
+			continue
+		}
+		for k, rc := range li.lc.Ret {
+			cond, ok := func() (t Term, ok bool) {
+				defer func() {
+					if r := recover(); r != nil {
+						if ee, isE := r.(evalError); isE && strings.HasPrefix(ee.msg, "unknown identifier") {
+							ok = false
+							return
+						}
+						panic(r)
+					}
+				}()
+				return c.evalBool(rc.E), true
+			}()
+			e.noteClause("returns "+rc.Text, ok)
+			if !ok {
+				continue
+			}
+			e.oblige("loop-return", fmt.Sprintf("loop%d#%d %s", li.ord, k+1, rc.Text), rc.Tags, cond, x.Pos())
+		}
+	}
 	for k, en := range e.fc.Ens {
 		cj := e.p.conjuncts(en.E, deepSplit)
 		for j, cx := range cj {
